@@ -106,7 +106,8 @@ type frame struct {
 	caller           *frame
 	fn               *ssa.Function
 	block, prevBlock *ssa.BasicBlock
-	env              map[ssa.Value]value // dynamic values of SSA variables
+	env              []value // dynamic values of SSA variables (indexed by info.idx)
+	info             *fnInfo
 	locals           []value
 	defers           *deferred
 	result           value
@@ -128,8 +129,10 @@ func (fr *frame) get(key ssa.Value) value {
 	case *ssa.Global:
 		return fr.i.global(key)
 	}
-	if r, ok := fr.env[key]; ok {
-		return r
+	if j, ok := fr.info.idx[key]; ok {
+		if r := fr.env[j]; r != nil {
+			return r
+		}
 	}
 	panic(fmt.Sprintf("get: no value for %T: %v", key, key.Name()))
 }
@@ -199,35 +202,35 @@ func visitInstr(fr *frame, instr ssa.Instruction) continuation {
 		// no-op
 
 	case *ssa.UnOp:
-		fr.env[instr] = unop(instr, fr.get(instr.X))
+		fr.env[fr.info.idx[instr]] = unop(instr, fr.get(instr.X))
 
 	case *ssa.BinOp:
-		fr.env[instr] = binop(instr.Op, instr.X.Type(), fr.get(instr.X), fr.get(instr.Y))
+		fr.env[fr.info.idx[instr]] = binop(instr.Op, instr.X.Type(), fr.get(instr.X), fr.get(instr.Y))
 
 	case *ssa.Call:
 		fn, args := prepareCall(fr, &instr.Call)
-		fr.env[instr] = call(fr.i, fr, instr.Pos(), fn, args)
+		fr.env[fr.info.idx[instr]] = call(fr.i, fr, instr.Pos(), fn, args)
 
 	case *ssa.ChangeInterface:
-		fr.env[instr] = fr.get(instr.X)
+		fr.env[fr.info.idx[instr]] = fr.get(instr.X)
 
 	case *ssa.ChangeType:
-		fr.env[instr] = fr.get(instr.X) // (can't fail)
+		fr.env[fr.info.idx[instr]] = fr.get(instr.X) // (can't fail)
 
 	case *ssa.Convert:
-		fr.env[instr] = conv(instr.Type(), instr.X.Type(), fr.get(instr.X))
+		fr.env[fr.info.idx[instr]] = conv(instr.Type(), instr.X.Type(), fr.get(instr.X))
 
 	case *ssa.SliceToArrayPointer:
-		fr.env[instr] = sliceToArrayPointer(instr.Type(), instr.X.Type(), fr.get(instr.X))
+		fr.env[fr.info.idx[instr]] = sliceToArrayPointer(instr.Type(), instr.X.Type(), fr.get(instr.X))
 
 	case *ssa.MakeInterface:
-		fr.env[instr] = iface{t: instr.X.Type(), v: fr.get(instr.X)}
+		fr.env[fr.info.idx[instr]] = iface{t: instr.X.Type(), v: fr.get(instr.X)}
 
 	case *ssa.Extract:
-		fr.env[instr] = fr.get(instr.Tuple).(tuple)[instr.Index]
+		fr.env[fr.info.idx[instr]] = fr.get(instr.Tuple).(tuple)[instr.Index]
 
 	case *ssa.Slice:
-		fr.env[instr] = slice(fr.get(instr.X), fr.get(instr.Low), fr.get(instr.High), fr.get(instr.Max))
+		fr.env[fr.info.idx[instr]] = slice(fr.get(instr.X), fr.get(instr.Low), fr.get(instr.High), fr.get(instr.Max))
 
 	case *ssa.Return:
 		switch len(instr.Results) {
@@ -293,17 +296,17 @@ func visitInstr(fr *frame, instr ssa.Instruction) continuation {
 		cur.goQueue = append(cur.goQueue, goTask{fn, args, instr.Pos()})
 
 	case *ssa.MakeChan:
-		fr.env[instr] = &ochan{cap: int(asInt64(fr.get(instr.Size)))}
+		fr.env[fr.info.idx[instr]] = &ochan{cap: int(asInt64(fr.get(instr.Size)))}
 
 	case *ssa.Alloc:
 		var addr *value
 		if instr.Heap {
 			// new
 			addr = new(value)
-			fr.env[instr] = addr
+			fr.env[fr.info.idx[instr]] = addr
 		} else {
 			// local
-			addr = fr.env[instr].(*value)
+			addr = fr.env[fr.info.idx[instr]].(*value)
 		}
 		*addr = zero(mustDeref(instr.Type()))
 
@@ -317,7 +320,7 @@ func visitInstr(fr *frame, instr ssa.Instruction) continuation {
 		for i := range slice {
 			slice[i] = zero(tElt)
 		}
-		fr.env[instr] = slice[:asInt64(fr.get(instr.Len))]
+		fr.env[fr.info.idx[instr]] = slice[:asInt64(fr.get(instr.Len))]
 
 	case *ssa.MakeMap:
 		var reserve int64
@@ -327,29 +330,29 @@ func visitInstr(fr *frame, instr ssa.Instruction) continuation {
 		if !fitsInt(reserve, fr.i.sizes) {
 			panic(fmt.Sprintf("ssa.MakeMap.Reserve value %d does not fit in int", reserve))
 		}
-		fr.env[instr] = makeMap(instr.Type().Underlying().(*types.Map).Key(), reserve)
+		fr.env[fr.info.idx[instr]] = makeMap(instr.Type().Underlying().(*types.Map).Key(), reserve)
 
 	case *ssa.Range:
-		fr.env[instr] = rangeIter(fr.get(instr.X), instr.X.Type())
+		fr.env[fr.info.idx[instr]] = rangeIter(fr.get(instr.X), instr.X.Type())
 
 	case *ssa.Next:
-		fr.env[instr] = fr.get(instr.Iter).(iter).next()
+		fr.env[fr.info.idx[instr]] = fr.get(instr.Iter).(iter).next()
 
 	case *ssa.FieldAddr:
-		fr.env[instr] = &(*fr.get(instr.X).(*value)).(structure)[instr.Field]
+		fr.env[fr.info.idx[instr]] = &(*fr.get(instr.X).(*value)).(structure)[instr.Field]
 
 	case *ssa.Field:
-		fr.env[instr] = fr.get(instr.X).(structure)[instr.Field]
+		fr.env[fr.info.idx[instr]] = fr.get(instr.X).(structure)[instr.Field]
 
 	case *ssa.IndexAddr:
 		x := fr.get(instr.X)
 		idx := fr.get(instr.Index)
 		switch x := x.(type) {
 		case []value:
-			fr.env[instr] = &x[cur.index(idx, len(x))]
+			fr.env[fr.info.idx[instr]] = &x[cur.index(idx, len(x))]
 		case *value: // *array
 			a := (*x).(array)
-			fr.env[instr] = &a[cur.index(idx, len(a))]
+			fr.env[fr.info.idx[instr]] = &a[cur.index(idx, len(a))]
 		default:
 			panic(fmt.Sprintf("unexpected x type in IndexAddr: %T", x))
 		}
@@ -360,21 +363,21 @@ func visitInstr(fr *frame, instr ssa.Instruction) continuation {
 
 		switch x := x.(type) {
 		case array:
-			fr.env[instr] = symIndexRead([]value(x), idx)
+			fr.env[fr.info.idx[instr]] = symIndexRead([]value(x), idx)
 		case string:
 			if _, ok := idx.(sv); ok {
-				fr.env[instr] = symIndexRead(strBytes(x), idx)
+				fr.env[fr.info.idx[instr]] = symIndexRead(strBytes(x), idx)
 			} else {
-				fr.env[instr] = x[cur.index(idx, len(x))]
+				fr.env[fr.info.idx[instr]] = x[cur.index(idx, len(x))]
 			}
 		case sstr:
-			fr.env[instr] = symIndexRead([]value(x), idx)
+			fr.env[fr.info.idx[instr]] = symIndexRead([]value(x), idx)
 		default:
 			panic(fmt.Sprintf("unexpected x type in Index: %T", x))
 		}
 
 	case *ssa.Lookup:
-		fr.env[instr] = lookup(instr, fr.get(instr.X), fr.get(instr.Index))
+		fr.env[fr.info.idx[instr]] = lookup(instr, fr.get(instr.X), fr.get(instr.Index))
 
 	case *ssa.MapUpdate:
 		m := fr.get(instr.Map)
@@ -388,20 +391,20 @@ func visitInstr(fr *frame, instr ssa.Instruction) continuation {
 		}
 
 	case *ssa.TypeAssert:
-		fr.env[instr] = typeAssert(fr.i, instr, fr.get(instr.X).(iface))
+		fr.env[fr.info.idx[instr]] = typeAssert(fr.i, instr, fr.get(instr.X).(iface))
 
 	case *ssa.MakeClosure:
 		var bindings []value
 		for _, binding := range instr.Bindings {
 			bindings = append(bindings, fr.get(binding))
 		}
-		fr.env[instr] = &closure{instr.Fn.(*ssa.Function), bindings}
+		fr.env[fr.info.idx[instr]] = &closure{instr.Fn.(*ssa.Function), bindings}
 
 	case *ssa.Phi:
 		log.Fatal("unreachable") // phis are processed at block entry
 
 	case *ssa.Select:
-		fr.env[instr] = doSelect(fr, instr)
+		fr.env[fr.info.idx[instr]] = doSelect(fr, instr)
 
 	default:
 		panic(fmt.Sprintf("unexpected instruction: %T", instr))
@@ -487,8 +490,9 @@ func callSSA(i *interpreter, caller *frame, callpos token.Pos, fn *ssa.Function,
 		fn:     fn,
 	}
 	if fn.Parent() == nil {
-		name := fn.String()
-		if ext := externals[name]; ext != nil {
+		info := infoOf(fn)
+		name := info.name
+		if ext := info.ext; ext != nil {
 			if i.mode&EnableTracing != 0 {
 				fmt.Fprintln(os.Stderr, "\t(external)")
 			}
@@ -509,18 +513,19 @@ func callSSA(i *interpreter, caller *frame, callpos token.Pos, fn *ssa.Function,
 		panic("interp requires ssa.BuilderMode to include InstantiateGenerics to execute generics")
 	}
 
-	fr.env = make(map[ssa.Value]value)
+	fr.info = infoOf(fn)
+	fr.env = make([]value, fr.info.n)
 	fr.block = fn.Blocks[0]
 	fr.locals = make([]value, len(fn.Locals))
 	for i, l := range fn.Locals {
 		fr.locals[i] = zero(mustDeref(l.Type()))
-		fr.env[l] = &fr.locals[i]
+		fr.env[fr.info.idx[l]] = &fr.locals[i]
 	}
 	for i, p := range fn.Params {
-		fr.env[p] = args[i]
+		fr.env[fr.info.idx[p]] = args[i]
 	}
 	for i, fv := range fn.FreeVars {
-		fr.env[fv] = env[i]
+		fr.env[fr.info.idx[fv]] = env[i]
 	}
 	for fr.block != nil {
 		runFrame(fr)
@@ -623,7 +628,7 @@ func executePhis(fr *frame) []ssa.Instruction {
 			fr.phitemps = append(fr.phitemps, fr.get(phi.Edges[predIndex]))
 		}
 		for i, phi := range phis {
-			fr.env[phi.(*ssa.Phi)] = fr.phitemps[i]
+			fr.env[fr.info.idx[phi.(*ssa.Phi)]] = fr.phitemps[i]
 		}
 	}
 	return nonPhis
@@ -697,7 +702,9 @@ func (i *interpreter) global(g *ssa.Global) *value {
 	if pkg != nil && !i.isOwn(pkg) && !i.pkgInited[pkg] {
 		i.pkgInited[pkg] = true
 		path := pkg.Pkg.Path()
-		if !noInitPkgs[path] && !strings.HasPrefix(path, "internal/") && !strings.HasPrefix(path, "runtime/") {
+		if ci := customInits[path]; ci != nil {
+			ci(i, pkg)
+		} else if !noInitPkgs[path] && !strings.HasPrefix(path, "internal/") && !strings.HasPrefix(path, "runtime/") {
 			if initFn := pkg.Func("init"); initFn != nil && initFn.Blocks != nil {
 				func() {
 					defer func() {
@@ -721,12 +728,13 @@ func (i *interpreter) global(g *ssa.Global) *value {
 // here; they run on demand when one of their globals is touched).
 func (i *interpreter) lazyBody(initFn *ssa.Function) {
 	fr := &frame{i: i, fn: initFn}
-	fr.env = make(map[ssa.Value]value)
+	fr.info = infoOf(initFn)
+	fr.env = make([]value, fr.info.n)
 	fr.block = initFn.Blocks[0]
 	fr.locals = make([]value, len(initFn.Locals))
 	for k, l := range initFn.Locals {
 		fr.locals[k] = zero(mustDeref(l.Type()))
-		fr.env[l] = &fr.locals[k]
+		fr.env[fr.info.idx[l]] = &fr.locals[k]
 	}
 	for fr.block != nil {
 		runFrame(fr)
@@ -822,4 +830,68 @@ func doSelect(fr *frame, instr *ssa.Select) value {
 		}
 	}
 	return r
+}
+
+// fnInfo caches per-function data: the slot of every SSA value in the frame
+// environment and the external (intrinsic) implementation, if any.
+type fnInfo struct {
+	idx  map[ssa.Value]int
+	n    int
+	name string
+	ext  externalFn
+}
+
+var fnInfos = map[*ssa.Function]*fnInfo{}
+
+func infoOf(fn *ssa.Function) *fnInfo {
+	if fi, ok := fnInfos[fn]; ok {
+		return fi
+	}
+	fi := &fnInfo{idx: map[ssa.Value]int{}, name: fn.String()}
+	fi.ext = externals[fi.name]
+	add := func(v ssa.Value) {
+		if _, ok := fi.idx[v]; !ok {
+			fi.idx[v] = fi.n
+			fi.n++
+		}
+	}
+	for _, p := range fn.Params {
+		add(p)
+	}
+	for _, fv := range fn.FreeVars {
+		add(fv)
+	}
+	for _, l := range fn.Locals {
+		add(l)
+	}
+	for _, b := range fn.Blocks {
+		for _, ins := range b.Instrs {
+			if v, ok := ins.(ssa.Value); ok {
+				add(v)
+			}
+		}
+	}
+	fnInfos[fn] = fi
+	return fi
+}
+
+// customInits replaces the initialiser of foreign packages whose real one
+// cannot be interpreted (unsafe, reflection), setting only what the code
+// under test reads from them.
+var customInits = map[string]func(i *interpreter, pkg *ssa.Package){}
+
+func init() {
+	customInits["github.com/ethereum/go-ethereum/common"] = func(i *interpreter, pkg *ssa.Package) {
+		bigPkg := i.prog.ImportedPackage("math/big")
+		if bigPkg == nil {
+			return
+		}
+		newInt := bigPkg.Func("NewInt")
+		for name, v := range map[string]int64{"Big0": 0, "Big1": 1, "Big2": 2, "Big3": 3, "Big32": 32, "Big256": 256, "Big257": 257} {
+			if g, ok := pkg.Members[name].(*ssa.Global); ok {
+				cell := i.global(g)
+				*cell = call(i, nil, token.NoPos, newInt, []value{v})
+			}
+		}
+	}
 }
